@@ -135,7 +135,7 @@ func defaultBytes(c proxyrig.ColSpec) []byte {
 var MySQLLayer func(r *ev.Run)
 
 func Run(r *ev.Run) {
-	r.Rule = "tables of 3-6 protected columns with a declared type (str, bytes, int32, int64; as data_type or as data_type_db_identifier OID; plain or searchable; both envelopes) and a failure policy (ciphertext explicit/implicit, default_value with generated valid defaults, error); the owner writes boundary values through AcraServer (differential against a reference database with the declared types: type OID, text and binary encodings, NULL/empty); then readers that cannot reveal (other keys, no keys, owner reading a value the database damaged) select every column in text and binary result format and must get exactly what the policy says; distinct = (declared type, type given as, column kind, envelope, policy, reader, result format, outcome) tuples"
+	r.Rule = "tables of 3-6 protected columns with a declared type (str, bytes, int32, int64; as data_type or as data_type_db_identifier OID; plain or searchable; both envelopes) and a failure policy (ciphertext explicit/implicit, default_value with generated valid defaults, error); the owner writes boundary values through AcraServer (differential against a reference database with the declared types: type OID, text and binary encodings, NULL/empty); then readers that cannot reveal (other keys, no keys, owner reading a value the database damaged) select every column in text and binary result format and must get exactly what the policy says; in every session the owner also runs three of the 13 protocol-sequence shapes of proxyrig/pgseq.go (statement parsed in one cycle and bound / described / executed in later ones, several statements prepared and run in another order, simple queries in between, Flush, pipelined cycles; named and unnamed statements and portals; fresh and used connections) and every RowDescription and DataRow is compared per statement with the reference database; distinct = (declared type, type given as, column kind, envelope, policy, reader, result format, outcome) tuples, for sequences (shape, answered message, parsed in same/earlier cycle, what ran since the Parse, named/unnamed, declared type, format)"
 	r.Assumptions = []string{
 		"crypto library replaced by the pure-Go gothemis stand-in",
 		"fake PostgreSQL behind AcraServer; PostgreSQL protocol only (MySQL type ids not driven here)",
@@ -149,6 +149,7 @@ func Run(r *ev.Run) {
 	r.RequireAtLeast("owner_replies_equal_reference", 100)
 	r.RequireAtLeast("policy_fields_checked", 300)
 	r.RequireAtLeast("mixed_rows_checked", 20)
+	requireSequences(r)
 	if MySQLLayer != nil {
 		// the MySQL part: same oracles over the MySQL rig (switches the process-wide SQL dialect, so it runs after the PostgreSQL part)
 		MySQLLayer(r)
@@ -192,6 +193,8 @@ func session(r *ev.Run, rng *gen.Rand, sidx int) {
 			r.Distinct(fmt.Sprintf("owner|%s|oid=%v|%s|%s|%s", c.DataType, c.TypeID != 0, c.Kind, c.Envelope, policyOf(c)))
 		}
 	}
+	// protocol sequences (seq.go): the owner's statements parsed, described, bound and executed in separate cycles
+	runSequences(r, rng, w, ac, rc, t, history, sidx)
 	// readers that cannot reveal
 	for _, reader := range []string{c04.Other, c04.NoKeys} {
 		c, _, err := proxyrig.DialPG(w.Acras[reader].Port)
